@@ -16,18 +16,18 @@ PLAN = {}
 import universe as U
 
 
-def fam_harnesses(fam, tier, what, rows=None, only_borrows=False):
+def fam_harnesses(fam, tier, what, rows=None, only_borrows=False, covers="all"):
     hs = []
     for row in (rows or U.ROWS):
         if tier == "quick" and not row["quick"]:
             continue
         if only_borrows and not row["borrows"]:
             continue
-        for pre in U.residues(row, tier):
+        for pre in ([0] if fam == "c03a" else U.residues(row, tier)):
             for sh in U.shapes(row, tier):
                 hs.append(H("inst::" + U.inst_name(fam, row["case"], pre, sh),
                             bound=f"{row['ty']}: all values (sequence/char bounds per cases.rs; shape {sh} of {row['shapes']}), start residue {pre} of unit {row['unit']}, unwind {row['unwind']}",
-                            what=what, role=f"{fam}/{row['case']}"))
+                            what=what, role=f"{fam}/{row['case']}", covers=covers))
     return hs
 
 
@@ -78,22 +78,29 @@ RT_BOUNDS = {"sequence_len": "<= 3 (per case; nested/deep sequences and strings 
              "string_chars": "<= 2, every code point of each UTF-8 width class", "start_residues": "quick {0,1,unit-1}; thorough 0..unit-1"}
 
 
-def rt_plan(pid, fam, what, twin_name, only_borrows=False, stubs=None):
+def rt_plan(pid, fam, what, twin_name, only_borrows=False, stubs=None, covers="all"):
     PLAN[pid] = dict(
-        quick=lambda seed: [dict(harnesses=fam_harnesses(fam, "quick", what, only_borrows=only_borrows) + [twin(twin_name)])],
-        thorough=lambda seed: [dict(harnesses=fam_harnesses(fam, "thorough", what, only_borrows=only_borrows) + [twin(twin_name)], timeout=1800)],
+        quick=lambda seed: [dict(harnesses=fam_harnesses(fam, "quick", what, only_borrows=only_borrows, covers=covers) + [twin(twin_name)])],
+        thorough=lambda seed: [dict(harnesses=fam_harnesses(fam, "thorough", what, only_borrows=only_borrows, covers=covers) + [twin(twin_name)], timeout=1800)],
         bounds=RT_BOUNDS, outside=COMMON_OUTSIDE, stubs=stubs or RT_STUBS, assumptions=[])
 
 
 rt_plan("C01", "c01", "serialize -> deserialize_full (real ReaderWithPos) == original; bytes consumed == bytes written", "c01::c01_twin_reach")
 rt_plan("C02", "c02", "eps == original under the substitution; eps == full on the same bytes; both consume exactly the stream", "c01::c01_twin_reach")
-rt_plan("C03", "c03", "every borrowed part == the block the Probe writer recorded (pointer identity), in bounds, aligned", "c01::c01_twin_reach", only_borrows=True,
+rt_plan("C03", "c03", "every borrowed part == the block the Probe writer recorded (pointer identity), in bounds, aligned", "c01::c01_twin_reach", only_borrows=True, covers="none",
         stubs=RT_STUBS + ["Probe: WriteWithNames delegating to the real WriterWithPos, logging align/write_bytes events"])
+PLAN["C03"]["family_covers"] = ["a borrowed part exists"]
+_c03q, _c03t = PLAN["C03"]["quick"], PLAN["C03"]["thorough"]
+_C03A_WHAT = "bytes allocated during eps deserialization == deep-copy skeleton + fully copied fields (0 for flat zero-copy sequences, strings, zero-copy structs), independent of borrowed lengths"
+PLAN["C03"]["quick"] = lambda seed: [dict(_c03q(seed)[0], harnesses=_c03q(seed)[0]["harnesses"] + fam_harnesses("c03a", "quick", _C03A_WHAT, covers="all"))]
+PLAN["C03"]["thorough"] = lambda seed: [dict(_c03t(seed)[0], harnesses=_c03t(seed)[0]["harnesses"] + fam_harnesses("c03a", "thorough", _C03A_WHAT, covers="all"))]
+PLAN["C03"]["stubs"] = PLAN["C03"]["stubs"] + ["std::alloc::alloc -> env::count_alloc_stub (alloc_zeroed + byte counter)"]
+PLAN["C03"]["outside"] = COMMON_OUTSIDE + ["allocations that bypass std::alloc::alloc (realloc/alloc_zeroed are not called by the deserializers)"]
 PLAN["C03"]["outside"] = COMMON_OUTSIDE + ["the allocation-count sub-claim (allocated memory independent of borrowed lengths): Kani offers no allocation counter; pointer identity of every borrowed part with the input buffer is decided instead"]
 
 
 def c07_jobs(tier):
-    hs = fam_harnesses("c07", tier, "unit is a power of two >= align; block offset % unit == 0; gap zero, < unit, minimal; byte counts exact")
+    hs = fam_harnesses("c07", tier, "unit is a power of two >= align; block offset % unit == 0; gap zero, < unit, minimal; byte counts exact", covers="none")
     hs += [H("c07::c07_pad_formula", bound="all v: usize x all 64 power-of-two units", what="pad_align_to: multiple, < unit, minimal"),
            H("c07::c07_units", bound="every zero-copy type of the universe (concrete evaluation)", what="max_size_of is a power of two >= align_of and >= every field's unit"),
            twin("c07::c07_twin_reach")]
@@ -101,6 +108,7 @@ def c07_jobs(tier):
 
 
 PLAN["C07"] = dict(quick=lambda seed: c07_jobs("quick"), thorough=lambda seed: c07_jobs("thorough"),
+                   family_covers=["a zero-copy block was written", "a non-empty gap was written", "already aligned", "largest gap"],
                    bounds=RT_BOUNDS, outside=COMMON_OUTSIDE,
                    stubs=RT_STUBS + ["Probe: WriteWithNames delegating to the real WriterWithPos, logging align/write_bytes events"], assumptions=[])
 
@@ -145,11 +153,11 @@ PLAN["C10"] = dict(
     stubs=["Sink", "Exact", "Al", "core::str::from_utf8 -> env::from_utf8_stub"], assumptions=[])
 
 PLAN["C13"] = dict(
-    quick=lambda seed: [dict(harnesses=names("c13", ["c13_slice_u8", "c13_slice_u32", "c13_slice_deep", "c13_struct_with_slice", "c13_seriter", "c13_serialize_flush",
+    quick=lambda seed: [dict(harnesses=names("c13", ["c13_slice_u8", "c13_slice_u32", "c13_slice_deep", "c13_struct_with_slice", "c13_seriter", "c13_serialize_flush", "c13_schema_flush",
                                                        "c13_short_writes_u32", "c13_owned_u64", "c13_owned_vecu32", "c13_owned_str", "c13_owned_vecvec", "c13_owned_deeps",
                                                        "c13_owned_zeros", "c13_owned_e5", "c13_owned_optvec", "c13_owned_arrstr"],
                                              bound="failure position symbolic in 0..=N, values symbolic", covers="none") + [twin("c13::c13_twin_reach")])],
-    thorough=lambda seed: [dict(harnesses=names("c13", ["c13_slice_u8", "c13_slice_u32", "c13_slice_deep", "c13_struct_with_slice", "c13_seriter", "c13_serialize_flush",
+    thorough=lambda seed: [dict(harnesses=names("c13", ["c13_slice_u8", "c13_slice_u32", "c13_slice_deep", "c13_struct_with_slice", "c13_seriter", "c13_serialize_flush", "c13_schema_flush",
                                                           "c13_short_writes_u32", "c13_owned_u64", "c13_owned_vecu32", "c13_owned_str", "c13_owned_vecvec", "c13_owned_deeps",
                                                           "c13_owned_zeros", "c13_owned_e5", "c13_owned_optvec", "c13_owned_arrstr"],
                                                 bound="failure position symbolic in 0..=N, values symbolic", covers="none") + [twin("c13::c13_twin_reach")], timeout=1800)],
@@ -309,7 +317,7 @@ PLAN["C08"] = dict(
     outside=["load_mmap, mmap and the 8 flag sets (mmap/madvise/mprotect FFI inside mmap-rs: a stub would be the property)", "cross-thread reads (Send/Sync impls): Kani has no concurrency",
              "page-size effects, real file systems, short reads of a real file (C14 covers read_exact)", "files larger than 64 bytes"],
     stubs=FS_STUBS, assumptions=["every stub of fsenv.rs"])
-C09_ALL = ["c09_release_u32", "c09_release_tup2", "c09_release_arr", "c09_fail_wrong_type", "c09_fail_wrong_type_zero", "c09_fail_truncated", "c09_fail_bad_magic", "c09_fail_bad_tag",
+C09_ALL = ["c09_release_u32", "c09_release_tup2", "c09_release_arr", "c09_fail_wrong_type", "c09_fail_wrong_type_zero", "c09_fail_truncated", "c09_fail_bad_magic", "c09_fail_bad_tag", "c09_fail_read_error",
            "c09_escape_deref", "c09_escape_asref", "c09_scoped_use", "c09_eps_scope"]
 PLAN["C09"] = dict(
     quick=lambda seed: [dict(cfg="nommap", harnesses=[H("c09::" + n, bound="load_mem under fs stubs, no-mmap build; file contents symbolic", what="release exactly once / no leak on failure / no use after release through safe code", covers="none", role="load_mem/" + n[4:]) for n in C09_ALL]
@@ -325,6 +333,7 @@ PLAN["C09"] = dict(
 C11_ALLOW = [r"core::slice::index::", r"index out of bounds", r"core::panicking::panic_bounds_check", r"slice_index_fail",
              r"Result::<.*TryFromSliceError>::unwrap|unwrap_failed"]
 C11_FULL = _fns("c11.rs", r"\b(c11_full_\w+) =")
+C11_IO = _fns("c11.rs", r"\b(c11_io_\w+) =")
 C11_EPS = _fns("c11.rs", r"\b(c11_eps_\w+) =")
 C11_EXACT = _fns("c11.rs", r"\b(c11_exact_\w+) =")
 C11_HDR = _fns("c11.rs", r"\b(c11_hdr_\w+) =")
@@ -336,7 +345,9 @@ def c11_jobs(tier):
     eps = C11_EPS[:9] if q else C11_EPS
     ex = C11_EXACT[:4] if q else C11_EXACT
     hdr = C11_HDR[:2] if q else C11_HDR
+    io = C11_IO[:4] if q else C11_IO
     hs = names("c11", full + [h for h in hdr if h.endswith("_full")], bound="every cut point k < len (symbolic), values symbolic", what="Err(ReadError), never a value")
+    hs += names("c11", io, bound="every cut point k in [PRE, len) (symbolic) incl. inside (trailing) alignment padding; reader = byte slice through the blanket io::Read impl", what="Err(ReadError), never a value")
     hs += [H("c11::" + n, bound="every cut point k < len (symbolic), values symbolic", what="never a value; only bounds-check panics tolerated", allow=C11_ALLOW, covers="none") for n in eps + [h for h in hdr if h.endswith("_eps")]]
     hs += [H("c11::" + n, bound="exact-size heap copy of the prefix (K bytes): any read outside it is a pointer-check failure", what="never a value, no out-of-object access", allow=C11_ALLOW, covers="none") for n in ex]
     hs += [twin("c11::c11_twin_reach")]
